@@ -370,6 +370,9 @@ func (tbls *TBLS) commitPhase(ctx context.Context, pk []byte) error {
 }
 
 func (tbls *TBLS) combineShares() []byte {
+	tbls.lock.Lock()
+	defer tbls.lock.Unlock()
+
 	for _, party := range tbls.parties {
 		if party == tbls.Party {
 			continue
